@@ -329,6 +329,14 @@ class LinearPaths:
         self._progress_log("merge_linear_paths", 0.95)
     if isinstance(merged.name, list):
       merged.name = "_".join(merged.name)
+      if not merged_name:
+        # the name computed from the names of the members may be in use already
+        # (e.g. a segment a_b next to the chain a, b)
+        computed_name = merged.name
+        i = 1
+        while self.line(merged.name) is not None:
+          i += 1
+          merged.name = "{}_{}".format(computed_name, i)
     ortag = merged.get("or")
     if isinstance(ortag, list):
       merged.set_datatype("or", "Z")
